@@ -800,6 +800,49 @@ theorem proposersOf_eq_spec {st : State} {e : Nat} {p : Proposers} (hspe : 0 < c
       unfold compute_start_slot_at_epoch at hcell'
       exact hcell'
 
+/-! ### hydrating the state's sync committees -/
+
+/-- in a registry without repeated pubkeys, looking up the pubkey of validator `i` gives `i` -/
+theorem indexOfPubkey_getElem {vs : List Validator} (hnd : (vs.map (·.pubkey)).Nodup) {i : Nat} (hi : i < vs.length) :
+    indexOfPubkey vs (vs[i].pubkey) = some i := by
+  unfold indexOfPubkey
+  rw [List.findIdx?_eq_some_iff_getElem]
+  refine ⟨hi, by simp, ?_⟩
+  intro j hj
+  simp only [decide_eq_true_eq]
+  intro heq
+  have hj' : j < vs.length := by omega
+  have := (List.Nodup.getElem_inj_iff hnd (i := j) (j := i) (hi := by simpa using hj') (hj := by simpa using hi)).mp
+    (by simpa using heq)
+  omega
+
+theorem memberIndex_getElem {vs : List Validator} (hnd : (vs.map (·.pubkey)).Nodup) {i : Nat} (hi : i < vs.length) :
+    memberIndex vs ((vs.getD i default).pubkey) = .ok i := by
+  unfold memberIndex
+  have : vs.getD i default = vs[i] := by simp [List.getD, hi]
+  rw [this, indexOfPubkey_getElem hnd hi]
+  rfl
+
+theorem mapM_memberIndex {vs : List Validator} (hnd : (vs.map (·.pubkey)).Nodup) : ∀ (l : List Nat),
+    (∀ i ∈ l, i < vs.length) →
+    (l.map (fun i => (vs.getD i default).pubkey)).mapM (memberIndex vs) = .ok l := by
+  intro l
+  induction l with
+  | nil => intro _; rfl
+  | cons a t ih =>
+    intro h
+    simp only [List.map_cons, List.mapM_cons, bind, Except.bind, pure, Except.pure]
+    rw [memberIndex_getElem hnd (h a List.mem_cons_self), ih (fun i hi => h i (List.mem_cons_of_mem _ hi))]
+
+/-- **Hydrating a stored sync committee recovers the indices it was built from**: if the committee's pubkeys are those of
+the validators `l` (all in the registry, which holds no pubkey twice), the indexed committee is `l` itself. -/
+theorem syncOfOpt_of_indices {vs : List Validator} (hnd : (vs.map (·.pubkey)).Nodup) (l : List Nat)
+    (hl : ∀ i ∈ l, i < vs.length) (sc : SyncCommittee)
+    (hpk : sc.pubkeys = l.map (fun i => (vs.getD i default).pubkey)) :
+    syncOfOpt vs (some sc) = .ok (some ⟨l, sc.pubkeys⟩) := by
+  simp only [syncOfOpt, syncOf, Functor.map, Except.map, bind, Except.bind, pure, Except.pure]
+  rw [hpk, mapM_memberIndex hnd l hl]
+
 /-! ### soundness of the executable step checks -/
 
 theorem fieldWriteB_sound {cfg : Config} {N old new : Nat} (h : fieldWriteB cfg N old new = true) :
